@@ -59,6 +59,10 @@ func drawOScenario(t *rapid.T) OScenario {
 	var s OScenario
 	if rapid.IntRange(0, 3).Draw(t, "sub") == 0 {
 		s.Sub = true
+		if rapid.IntRange(0, 3).Draw(t, "subcompleting") == 0 {
+			// the opening completes: valid signature, funding update in time; then more
+			s.Msgs = append(s.Msgs, OMsg{Kind: "acc-v0-valid", Ser: "native"}, OMsg{Kind: "parent-funding", Early: true, Ser: "native"})
+		}
 		n := rapid.IntRange(1, 4).Draw(t, "nmsgs")
 		for i := 0; i < n; i++ {
 			s.Msgs = append(s.Msgs, OMsg{
